@@ -7,6 +7,9 @@ RULE = ("harness c08_enc: encode_vec_i64 / encode_vec_i128 / encode_coeff_i64 fo
         "1..3 columns with garbage elsewhere, value classes 0, +-1, +-2^(k-2), +-2^(k-1) and neighbours, random, top of the type; "
         "distinct = distinct (op, params, inputs)")
 ASSUMPTIONS = ["release-mode (wrapping) integer semantics; debug-build overflow panics are outside this check",
+               "decode_vec_float: the harness converts each FBig exactly (repr(): significand * 2^exponent, radix 2), multiplies by "
+               "2^(size*base2k), panics unless the result is an integer, and prints it as sign-carrying 64-bit magnitude words; the model "
+               "prints sum_j limb_j 2^((size-1-j) base2k) the same way",
                "div_round_i64/i128 are private to poulpy-hal::layouts::encoding and are exercised only through the decoders (divisor 2^rem)"]
 
 
